@@ -6,6 +6,7 @@ sum of `Conv.pre`; arg-max over vote counts.
 -/
 import SharkVerif.Model.Models3
 import SharkVerif.Lemmas.ChainDeriv
+import Mathlib.Data.Rat.Floor
 
 namespace SharkVerif.Models
 open Scalar
@@ -258,5 +259,128 @@ theorem argmaxNat_inv (n : ℕ) (v : ℕ → ℕ) :
       · exact h2 k h
       · have : k = n := by omega
         rw [this]; omega
+
+/-! ### `CARTree`: trees built by the construction API are well-formed, the walk ends in a leaf -/
+section Trees
+variable {α : Type} [Scalar α]
+
+/-- every internal node points to two later nodes inside the array -/
+def Tree.WF (t : Tree α) : Prop := ∀ id, id < t.nodes.length → (t.node id).left ≠ 0 →
+    id < (t.node id).left ∧ (t.node id).left < t.nodes.length ∧ id < (t.node id).right ∧ (t.node id).right < t.nodes.length
+
+theorem Tree.findLeaf_reaches_leaf (t : Tree α) (hwf : t.WF) (x : ℕ → α) :
+    ∀ fuel id, id < t.nodes.length → t.nodes.length - id ≤ fuel →
+      (t.node (t.findLeaf x fuel id)).left = 0 ∧ t.findLeaf x fuel id < t.nodes.length := by
+  intro fuel
+  induction fuel with
+  | zero => intro id h1 h2; omega
+  | succ f ih =>
+    intro id h1 h2
+    unfold Tree.findLeaf
+    by_cases hl : (t.node id).left = 0
+    · rw [if_pos hl]; exact ⟨hl, h1⟩
+    · rw [if_neg hl]
+      obtain ⟨a, b, c, d⟩ := hwf id h1 hl
+      by_cases hc : x (t.node id).attr ≤ (t.node id).thr
+      · rw [if_pos hc]; exact ih _ b (by omega)
+      · rw [if_neg hc]; exact ih _ d (by omega)
+
+theorem Tree.root_WF : (Tree.root : Tree α).WF := by
+  intro id h hl
+  simp only [Tree.root, List.length_singleton] at h
+  have : id = 0 := by omega
+  subst this
+  simp [Tree.node, Tree.root] at hl
+
+theorem Tree.node_eq (t : Tree α) (id : ℕ) (h : id < t.nodes.length) : t.node id = t.nodes[id] := by
+  simp [Tree.node, List.getD, h]
+
+theorem Tree.internal_WF (t : Tree α) (hwf : t.WF) (id attr : ℕ) (thr : α) (hid : id < t.nodes.length) :
+    (t.internal id attr thr).WF := by
+  intro k hk hl
+  have hlen : (t.internal id attr thr).nodes.length = t.nodes.length + 2 := by simp [Tree.internal]
+  rw [hlen] at hk ⊢
+  by_cases hki : k = id
+  · subst hki
+    have : (t.internal k attr thr).node k = { attr := attr, thr := thr, left := t.nodes.length, right := t.nodes.length + 1 } := by
+      simp [Tree.node, Tree.internal, List.getD, hid, Nat.lt_add_right]
+    rw [this]; simp only; omega
+  · have hne : (t.internal id attr thr).node k = (t.nodes ++ [(⟨0, 0, 0, 0⟩ : TNode α), ⟨0, 0, 0, 0⟩]).getD k ⟨0, 0, 0, 0⟩ := by
+      simp [Tree.node, Tree.internal, List.getD, Ne.symm hki]
+    by_cases hkn : k < t.nodes.length
+    · have h2 : (t.internal id attr thr).node k = t.node k := by
+        rw [hne]; simp [Tree.node, List.getD, List.getElem?_append_left hkn]
+      rw [h2] at hl ⊢
+      obtain ⟨a, b, c, d⟩ := hwf k hkn hl
+      omega
+    · exfalso
+      apply hl
+      rw [hne]
+      have : k = t.nodes.length ∨ k = t.nodes.length + 1 := by omega
+      rcases this with h | h <;> subst h <;> simp [List.getD]
+
+theorem Tree.leaf_WF (t : Tree α) (hwf : t.WF) (id label : ℕ) : (t.leaf id label).WF := by
+  intro k hk hl
+  have hlen : (t.leaf id label).nodes.length = t.nodes.length := by simp [Tree.leaf]
+  rw [hlen] at hk ⊢
+  by_cases hki : k = id
+  · subst hki
+    exfalso; apply hl
+    simp [Tree.node, Tree.leaf, List.getD, hk]
+  · have h2 : (t.leaf id label).node k = t.node k := by
+      simp [Tree.node, Tree.leaf, List.getD, Ne.symm hki]
+    rw [h2] at hl ⊢
+    exact hwf k hk hl
+
+/-- trees produced by `createRoot` / `transformInternalNode` (on an existing node) / `transformLeafNode` -/
+inductive Tree.Built : Tree α → Prop
+  | root : Tree.Built Tree.root
+  | internal (t : Tree α) (id attr : ℕ) (thr : α) : Tree.Built t → id < t.nodes.length → Tree.Built (t.internal id attr thr)
+  | leaf (t : Tree α) (id label : ℕ) : Tree.Built t → Tree.Built (t.leaf id label)
+
+theorem Tree.Built.wf {t : Tree α} (h : Tree.Built t) : t.WF ∧ 0 < t.nodes.length := by
+  induction h with
+  | root => exact ⟨Tree.root_WF, by simp [Tree.root]⟩
+  | internal t id attr thr _ hid ih => exact ⟨Tree.internal_WF t ih.1 id attr thr hid, by simp [Tree.internal]⟩
+  | leaf t id label _ ih => exact ⟨Tree.leaf_WF t ih.1 id label, by simp [Tree.leaf]; exact ih.2⟩
+
+/-! ### spline taps stay inside the image -/
+theorem smin_smax_bounds (b hi : Rat) (hhi : 0 ≤ hi) : 0 ≤ smin (smax b 0) hi ∧ smin (smax b 0) hi ≤ hi := by
+  unfold smin smax; split_ifs <;> constructor <;> linarith
+theorem smax_smin_bounds (b hi : Rat) (hhi : 0 ≤ hi) : 0 ≤ smax (smin b hi) 0 ∧ smax (smin b hi) 0 ≤ hi := by
+  unfold smin smax; split_ifs <;> constructor <;> linarith
+
+theorem Resize.coords_getD_le (toNat : Rat → ℕ) (htn : ∀ (q : Rat) (n : ℕ), 0 ≤ q → q ≤ n → toNat q ≤ n)
+    (base : Rat) (len l : ℕ) : (Resize.coords toNat base len).getD l 0 ≤ len - 1 := by
+  have hhi : (0 : Rat) ≤ ((len - 1 : ℕ) : Rat) := Nat.cast_nonneg _
+  have lo : ∀ b : Rat, Resize.clampLo toNat b ((len - 1 : ℕ) : Rat) ≤ len - 1 := fun b =>
+    htn _ _ (smin_smax_bounds b _ hhi).1 (smin_smax_bounds b _ hhi).2
+  have hi : ∀ b : Rat, Resize.clampHi toNat b ((len - 1 : ℕ) : Rat) ≤ len - 1 := fun b =>
+    htn _ _ (smax_smin_bounds b _ hhi).1 (smax_smin_bounds b _ hhi).2
+  unfold Resize.coords
+  simp only [Scalar.ofNat]
+  match l with
+  | 0 => exact lo _
+  | 1 => exact hi _
+  | 2 => exact lo _
+  | 3 => exact hi _
+  | (n + 4) => simp
+
+theorem Resize.taps_in_range (floor : Rat → Rat) (toNat : Rat → ℕ)
+    (htn : ∀ (q : Rat) (n : ℕ), 0 ≤ q → q ≤ n → toNat q ≤ n) (s : Resize) (hh : 0 < s.h) (hw : 0 < s.w) (p : ℕ) :
+    ∀ t ∈ Resize.taps floor toNat s p, t.1 < s.h * s.w := by
+  intro t ht
+  simp only [Resize.taps, List.mem_flatMap, List.mem_map, List.mem_range] at ht
+  obtain ⟨k, _, l, _, rfl⟩ := ht
+  have hx := Resize.coords_getD_le toNat htn (floor (Resize.pointX s p * Scalar.ofNat s.w)) s.w l
+  have hy := Resize.coords_getD_le toNat htn (floor (Resize.pointY s p * Scalar.ofNat s.h)) s.h k
+  obtain ⟨h', hh'⟩ : ∃ h', s.h = h' + 1 := ⟨s.h - 1, by omega⟩
+  simp only
+  rw [hh'] at hy ⊢
+  have h1 : s.w * (Resize.coords toNat (floor (Resize.pointY s p * Scalar.ofNat (h' + 1))) (h' + 1)).getD k 0 ≤ s.w * h' :=
+    Nat.mul_le_mul_left _ (by simpa using hy)
+  have h2 : (h' + 1) * s.w = s.w * h' + s.w := by ring
+  omega
+end Trees
 
 end SharkVerif.Models
